@@ -25,11 +25,12 @@ type Conn struct {
 }
 
 func newServer(s *Swarm, netConn net.Conn) (*Conn, error) {
-	var pubKey ssh.PublicKey
+	// The callback is also called for keys the client merely offers; only the permissions returned for
+	// the key the client proved possession of end up in sconn.Permissions.
+	const pubKeyExt = "p2p-pubkey"
 	config := &ssh.ServerConfig{
 		PublicKeyCallback: func(md ssh.ConnMetadata, pk ssh.PublicKey) (*ssh.Permissions, error) {
-			pubKey = pk
-			return &ssh.Permissions{}, nil
+			return &ssh.Permissions{Extensions: map[string]string{pubKeyExt: string(pk.Marshal())}}, nil
 		},
 	}
 	config.AddHostKey(s.signer)
@@ -38,8 +39,14 @@ func newServer(s *Swarm, netConn net.Conn) (*Conn, error) {
 	if err != nil {
 		return nil, err
 	}
-	if pubKey == nil {
+	if sconn.Permissions == nil {
+		sconn.Close()
 		return nil, errors.New("pubkey not set after connection")
+	}
+	pubKey, err := ssh.ParsePublicKey([]byte(sconn.Permissions.Extensions[pubKeyExt]))
+	if err != nil {
+		sconn.Close()
+		return nil, errors.Wrapf(err, "pubkey not set after connection")
 	}
 
 	raddr := sconn.RemoteAddr().(*net.TCPAddr)
